@@ -66,9 +66,14 @@ func (w *MIDIWriter) getTickDeltaAndClear() uint32 {
 	return x
 }
 
-func (w *MIDIWriter) addTickDelta(t uint32) { w.tickDelta += t }
+func (w *MIDIWriter) addTickDelta(t uint32) { w.tickDelta = addTicks(w.tickDelta, t) }
 func (w MIDIWriter) newTicks(multiplier float64) uint32 {
-	return uint32(math.Round(float64(w.quoaterNoteTicks) * multiplier))
+	t := math.Round(float64(w.quoaterNoteTicks) * multiplier)
+	if t > MaxTickDelta {
+		// cannot be written, WriteTo reports it
+		return MaxTickDelta + 1
+	}
+	return uint32(t)
 }
 
 func (w *MIDIWriter) add(op *TrackOp) {
@@ -102,6 +107,9 @@ func (w MIDIWriter) WriteTo(out io.Writer) (int64, error) {
 	s.TimeFormat = w.clock
 	for i := range w.set.Set().Len() {
 		var t smf.Track
+		if err := w.set.Set().Get(i).Validate(); err != nil {
+			return 0, err
+		}
 		w.set.Set().Get(i).Apply(&t)
 		if err := s.Add(t); err != nil {
 			return 0, err
